@@ -282,11 +282,7 @@ func (w *world) observe() obs {
 	// the authorised sale contract of every chain of the universe (x/skyway store)
 	for c := 1; c <= nChain; c++ {
 		if sc, err := e.skyway.LightNodeSaleContract(ctx, chainStr(c)); err == nil && sc != nil {
-			v, ok := new(big.Int).SetString(strings.TrimPrefix(sc.ContractAddress, "0x"), 16)
-			if !ok {
-				v = big.NewInt(-1)
-			}
-			o = append(o, []*big.Int{bi(108), bi(int64(c)), v})
+			o = append(o, []*big.Int{bi(108), bi(int64(c)), bi(int64(contractID(sc.ContractAddress)))})
 		}
 	}
 	return o
@@ -425,7 +421,7 @@ func (o op) plain() string {
 	case "Auth":
 		return fmt.Sprintf("(Auth %s)", keyT(o.a))
 	case "Sale":
-		return fmt.Sprintf("(Sale %d %d %s %s)", o.chain, o.contract, keyT(o.b), emit.Z(o.amt))
+		return fmt.Sprintf("(Sale %d %s %s %s)", o.chain, zi(int64(o.contract)), keyT(o.b), emit.Z(o.amt))
 	case "Send":
 		return fmt.Sprintf("(Send %d %d %s %s)", o.a.id, o.b.id, zi(int64(o.d)), emit.Z(o.amt))
 	case "Grant":
@@ -447,7 +443,58 @@ func (o op) plain() string {
 }
 
 func chainStr(c int) string    { return fmt.Sprintf("chain-%d", c) }
-func contractStr(c int) string { return fmt.Sprintf("0x%040x", c) }
+// contractStr: the spelling of a sale contract id. Ordinary ids are 20-byte hex addresses; the
+// special ids are near misses of them and degenerate entries. The code compares STRINGS, the
+// model compares ids, so the table has to be injective (contractID is its inverse).
+//   0: the zero address   -1: ""   -2: "0x0"   -3: not hex
+//   1000+c: over-long hex ending in the address of c   2000+c: the address of c without 0x
+//   3000+c: the address of c with upper-case hex digits and 0X
+func contractStr(c int) string {
+	switch {
+	case c == -1:
+		return ""
+	case c == -2:
+		return "0x0"
+	case c == -3:
+		return "sales parked"
+	case c >= 3000:
+		return "0X" + strings.ToUpper(fmt.Sprintf("%040x", c-3000))
+	case c >= 2000:
+		return fmt.Sprintf("%040x", c-2000)
+	case c >= 1000:
+		return fmt.Sprintf("0xdeadbeef%040x", c-1000)
+	}
+	return fmt.Sprintf("0x%040x", c)
+}
+
+var contractIDs = func() map[string]int {
+	m := map[string]int{}
+	for _, c := range []int{-3, -2, -1, 0, 11, 12, 1000, 1011, 1012, 2000, 2011, 2012, 3011, 3012} {
+		m[contractStr(c)] = c
+	}
+	return m
+}()
+
+func contractID(s string) int {
+	if c, ok := contractIDs[s]; ok {
+		return c
+	}
+	return -99
+}
+
+// a contract string that is NOT the one of id c but collapses to the same 20 bytes under a lenient
+// hex decoder (go-ethereum's HexToAddress): near misses
+func nearMiss(r *rand.Rand, c int) int {
+	switch c {
+	case 11, 12:
+		return []int{1000 + c, 2000 + c, 3000 + c}[r.Intn(3)]
+	case 0:
+		return []int{-1, -2, -3, 1000, 2000}[r.Intn(5)]
+	case -1, -2, -3:
+		return []int{0, -1, -2, -3, 1000}[r.Intn(5)]
+	}
+	return c
+}
 
 // apply runs one operation against the real keepers and returns its outcome class.
 func (w *world) apply(o op) int64 {
@@ -678,7 +725,11 @@ func (g *gen) genContracts() op {
 	var ps [][2]int
 	for c := 1; c <= nChain; c++ {
 		if r.Intn(5) < 3 {
-			ps = append(ps, [2]int{c, 11 + r.Intn(8)/7})
+			ct := 11 + r.Intn(8)/7
+			if r.Intn(7) == 0 {
+				ct = []int{0, -1, -3}[r.Intn(3)] // sales of the chain "parked" on a degenerate entry
+			}
+			ps = append(ps, [2]int{c, ct})
 		}
 	}
 	if r.Intn(6) == 0 {
@@ -778,6 +829,9 @@ func (g *gen) next() op {
 		}
 		if c, ok := g.everContract[o.chain]; ok && r.Intn(4) != 0 {
 			o.contract = c // the contract this chain is, or once was, authorised with
+			if r.Intn(4) == 0 {
+				o.contract = nearMiss(r, c) // another string a lenient decoder maps to the same bytes
+			}
 		}
 		switch {
 		case g.hostile && r.Intn(4) == 0:
@@ -899,6 +953,10 @@ func runHistory(run *emit.Run, idx int, hostile bool, script *scripted) {
 				l[i] = g.fundedID()
 			}
 			ops = append(ops, op{kind: "SetFunders", list: l})
+		}
+		if r.Intn(5) == 0 {
+			// a restart from an export right after (possibly partial) configuration
+			ops = append(ops, op{kind: "Genesis"})
 		}
 		n := 6 + r.Intn(12)
 		for i := 0; i < n; i++ {
@@ -1184,15 +1242,22 @@ func (w *world) oracleExt(run *emit.Run, o op, class int64, pr *probe, prev, cur
 	// the authorised sale contracts are exactly those of the last governance decision
 	for c := 1; c <= nChain; c++ {
 		want, okw := w.contracts[c]
-		got := -1
+		got, present := 0, false
 		if sc, err := w.e.skyway.LightNodeSaleContract(w.e.ctx, chainStr(c)); err == nil && sc != nil {
-			if v, ok := new(big.Int).SetString(strings.TrimPrefix(sc.ContractAddress, "0x"), 16); ok {
-				got = int(v.Int64())
-			}
+			got, present = contractID(sc.ContractAddress), true
 		}
-		if (okw && got != want) || (!okw && got != -1) {
+		if (okw && (!present || got != want)) || (!okw && present) {
 			run.Violate("C18:stale-sale-contract", fmt.Sprintf("chain %d: authorised contract is %d, governance last set %v (present %v)", c, got, want, okw), replay)
 		}
+	}
+	// fee granter and funders are configured exactly when governance configured them (an empty
+	// object coming back from a genesis file is not a configuration)
+	if fg, err := w.e.paloma.LightNodeClientFeegranter(w.e.ctx); (err == nil) != (w.feegranter >= 0) ||
+		(err == nil && w.idOf(fg.Account) != int64(w.feegranter)) {
+		run.Violate("C18:fee-granter-not-as-configured", fmt.Sprintf("governance set fee granter %d, the keeper reports %v (err %v) after %s", w.feegranter, fg, err, o.kind), replay)
+	}
+	if fs, err := w.e.paloma.LightNodeClientFunders(w.e.ctx); (err == nil) != (w.hasFunders && len(w.funders) > 0) {
+		run.Violate("C18:funders-not-as-configured", fmt.Sprintf("governance set funders %v, the keeper reports %v (err %v) after %s", w.funders, fs, err, o.kind), replay)
 	}
 	if o.kind == "Genesis" && !cur.eq(prev) {
 		run.Violate("C18:genesis-round-trip-changed-state", "ExportGenesis + InitGenesis on a wiped x/paloma store changed the projection", replay)
@@ -1221,6 +1286,182 @@ func (w *world) oracleExt(run *emit.Run, o op, class int64, pr *probe, prev, cur
 			run.Violate("C18:attested-sale-panic-mismatch", fmt.Sprintf("handler class %d, TryAttestation panicked %v", class, t.panicked), replay)
 		}
 	}
+}
+
+// ---- a sale campaign: more than a hundred licences pending at once ----
+
+// bulkHistory: 106-135 licences (message and sale path, both spellings) created for as many fresh
+// addresses, a few activated, then the list of pending licences is looked at through every reader
+// (keeper list, gRPC query, legacy import, genesis export), the chain goes through a genesis round
+// trip, and ALL pending licences are activated. Oracle: every licence created and not yet activated
+// is listed, exported, and activatable afterwards; escrow = sum of the pending licences throughout.
+func bulkHistory(run *emit.Run, idx int) {
+	r := run.Rng
+	start := genStart(r)
+	e := newEnv(start)
+	w := &world{e: e, addrs: map[int]sdk.AccAddress{0: e.escrow}, ids: map[string]int{string(e.escrow): 0},
+		gifts: []*big.Int{big.NewInt(0), big.NewInt(0)}, contracts: map[int]int{}, feegranter: -1,
+		activated: map[int]int{}, lastLocked: map[int]*big.Int{}}
+	n := 106 + r.Intn(30)
+	if run.Tier != "quick" {
+		n = 106 + r.Intn(140)
+	}
+	for _, i := range []int{1, 2} {
+		w.addrs[i] = addrOf(i)
+		w.ids[string(addrOf(i))] = i
+	}
+	for i := 0; i < n; i++ {
+		w.addrs[10+i] = addrOf(10 + i)
+		w.ids[string(addrOf(10+i))] = 10 + i
+	}
+	fund := new(big.Int).Lsh(big.NewInt(1), 70)
+	e.mint(w.addrs[1], sdk.Coins{sdk.NewCoin(bondDenom, sdkmath.NewIntFromBigInt(fund))})
+
+	pending := map[key]*big.Int{}
+	var keys []key // every key that ever carried a licence, plus its lower-case spelling
+	replaySteps := []stepRec{}
+	type seg struct {
+		ops  []string
+		outs []string
+		sum  string
+	}
+	var segs []seg
+	cur := seg{}
+	do := func(o op) int64 {
+		c := w.apply(o)
+		cur.ops = append(cur.ops, o.coq())
+		cur.outs = append(cur.outs, zi(c))
+		replaySteps = append(replaySteps, stepRec{o.coq(), c})
+		run.Count("op", "bulk "+o.kind)
+		return c
+	}
+	replay := func() any {
+		return map[string]any{"seed": run.Seed, "bulk": idx, "start": start.Unix(), "licences": n, "steps": replaySteps}
+	}
+	check := func(where string) {
+		all, err := e.paloma.AllLightNodeClientLicenses(e.ctx)
+		q, qerr := e.paloma.GetLightNodeClientLicenses(e.ctx, nil)
+		listed, queried := map[string]bool{}, map[string]bool{}
+		for _, l := range all {
+			listed[l.ClientAddress] = true
+		}
+		if qerr == nil {
+			for _, l := range q.LightNodeClientLicenses {
+				queried[l.ClientAddress] = true
+			}
+		}
+		sum := new(big.Int)
+		missing, unreadable := 0, 0
+		for k, amt := range pending {
+			sum.Add(sum, amt)
+			if !listed[w.str(k)] || !queried[w.str(k)] {
+				missing++
+			}
+			if _, err := e.paloma.GetLightNodeClientLicense(e.ctx, w.str(k)); err != nil {
+				unreadable++
+			}
+		}
+		if err != nil || qerr != nil || missing > 0 || len(all) != len(pending) {
+			run.Violate("C18:pending-licence-not-listed", fmt.Sprintf("%s: %d licences pending, the keeper lists %d (query %d), %d of the pending ones missing (err %v / %v)",
+				where, len(pending), len(all), len(queried), missing, err, qerr), replay())
+		}
+		if unreadable > 0 {
+			run.Violate("C18:pending-licence-lost", fmt.Sprintf("%s: %d of %d pending licences are gone from the store", where, unreadable, len(pending)), replay())
+		}
+		if have := e.bank.GetBalance(e.ctx, e.escrow, bondDenom).Amount.BigInt(); have.Cmp(sum) != 0 {
+			run.Violate("C18:escrow-ne-licences", fmt.Sprintf("%s: module account holds %s, the %d pending licences sum up to %s", where, have, len(pending), sum), replay())
+		}
+		// the segment's summary (mirrors Corr.C18.bulk_summary)
+		nclients := 0
+		for _, k := range keys {
+			if _, err := e.paloma.GetLightNodeClient(e.ctx, w.str(k)); err == nil {
+				nclients++
+			}
+		}
+		lsum := new(big.Int)
+		for _, l := range all {
+			if l.Amount.Denom == bondDenom {
+				lsum.Add(lsum, l.Amount.Amount.BigInt())
+			}
+		}
+		cur.sum = emit.List([]string{zi(int64(len(all))), emit.Z(lsum), emit.Z(e.bank.GetBalance(e.ctx, e.escrow, bondDenom).Amount.BigInt()), zi(int64(nclients))})
+		segs = append(segs, cur)
+		cur = seg{}
+	}
+	activate := func(k key, where string) {
+		amt := pending[k]
+		before := e.bank.GetBalance(e.ctx, w.addrs[k.id], bondDenom).Amount.BigInt()
+		if c := do(op{kind: "Register", a: k}); c != 0 {
+			run.Violate("C18:pending-licence-not-activatable", fmt.Sprintf("%s: the licensee %d (licence of %s) is refused with class %d", where, k.id, amt, c), replay())
+			return
+		}
+		delete(pending, k)
+		after := e.bank.GetBalance(e.ctx, w.addrs[k.id], bondDenom).Amount.BigInt()
+		if new(big.Int).Sub(after, before).Cmp(amt) != 0 {
+			run.Violate("C18:activation-wrong-amount", fmt.Sprintf("%s: licensee %d received %s, licensed %s", where, k.id, new(big.Int).Sub(after, before), amt), replay())
+		}
+	}
+
+	do(op{kind: "SetContracts", pairs: [][2]int{{1, 11}}})
+	do(op{kind: "SetFeegranter", a: key{2, false}})
+	do(op{kind: "SetFunders", list: []int{1}})
+	for i := 0; i < n; i++ {
+		k := key{10 + i, r.Intn(4) == 0}
+		var o op
+		if r.Intn(10) < 3 {
+			o = op{kind: "Sale", chain: 1, contract: 11, b: k, amt: big.NewInt(int64(1 + r.Intn(5)))}
+			if r.Intn(2) == 0 {
+				o.route = "try"
+			}
+		} else {
+			o = op{kind: "AddLicence", a: key{1, false}, b: k, d: 0, amt: big.NewInt(int64(1 + r.Intn(5_000_000))), months: monthsPool[r.Intn(len(monthsPool))]}
+		}
+		if c := do(o); c != 0 {
+			run.Violate("C18:bulk-creation-refused", fmt.Sprintf("%s refused with class %d", o.coq(), c), replay())
+			continue
+		}
+		amt := new(big.Int).Set(o.amt)
+		if o.kind == "Sale" {
+			amt.Mul(amt, big.NewInt(1_000_000))
+		}
+		pending[k] = amt
+		keys = append(keys, k)
+		if k.up {
+			keys = append(keys, key{k.id, false})
+		}
+	}
+	sorted := func() []key {
+		ks := make([]key, 0, len(pending))
+		for k := range pending {
+			ks = append(ks, k)
+		}
+		sort.Slice(ks, func(i, j int) bool { return ks[i].id < ks[j].id })
+		return ks
+	}
+	for _, k := range sorted()[:5] {
+		activate(k, "before the restart")
+	}
+	check("campaign")
+	do(op{kind: "SetLegacy", a: key{1, false}})
+	check("legacy import")
+	do(op{kind: "Genesis"})
+	check("after export + import")
+	ks := sorted()
+	r.Shuffle(len(ks), func(i, j int) { ks[i], ks[j] = ks[j], ks[i] })
+	for _, k := range ks {
+		activate(k, "after export + import")
+	}
+	check("all activated")
+	ss := make([]string, len(segs))
+	for i, sg := range segs {
+		ss[i] = emit.Pair(emit.List(sg.ops), emit.List(sg.outs), sg.sum)
+	}
+	kk := make([]string, len(keys))
+	for i, k := range keys {
+		kk[i] = keyT(k)
+	}
+	run.Case(fmt.Sprintf("C18.CBulk %d %s %s %s", start.Unix(), emit.Z(fund), emit.List(kk), emit.List(ss)), true, nil)
+	run.Count("history", fmt.Sprintf("bulk: %d licences pending at once", n-5))
 }
 
 // ---- function-level cases ----
@@ -1312,6 +1553,13 @@ func TestCorr(t *testing.T) {
 	nFn := run.N / 8
 	nHist := run.N - 2*nFn
 	replayCorpus(run)
+	nBulk := 1
+	if run.Tier != "quick" {
+		nBulk = 8
+	}
+	for i := 0; i < nBulk; i++ {
+		bulkHistory(run, i)
+	}
 	for i := 0; i < nHist; i++ {
 		hostile := run.Rng.Intn(100) < 15
 		if os.Getenv("VERIF_SEARCH") == "1" {
